@@ -668,3 +668,204 @@ def long_file_case(n: int) -> dict:
             out[f"{shape}_{tag}"] = _COUNT["n"]
             out[f"{shape}_cpu_{tag}"] = round(time.process_time() - t0, 3)
     return out
+
+
+# ---------------------------------------------------------------------------
+# C15: purity, schedules, free-running threads, order independence
+
+def _job(kind: str, text: str):
+    from nix_manipulator.cli.manipulations import set_value
+    from nix_manipulator.parser import parse, parse_file
+    if kind == "roundtrip":
+        return lambda: parse(text).rebuild()
+    if kind == "edit":
+        return lambda: set_value(parse(text), "a", "2")
+    if kind == "resolve":
+        def f():
+            s = parse(text)
+            return s["x"].value.rebuild() + "|" + s.rebuild()
+        return f
+    if kind == "parse_file":
+        def g():
+            import os
+            import tempfile
+            d = tempfile.mkdtemp(prefix="nima-c15-")
+            p = os.path.join(d, "f.nix")
+            try:
+                with open(p, "w", encoding="utf-8") as fh:
+                    fh.write(text)
+                return parse_file(p).rebuild()
+            finally:
+                import shutil
+                shutil.rmtree(d, ignore_errors=True)
+        return g
+    raise ValueError(kind)
+
+
+def _safe(f):
+    try:
+        return f()
+    except BaseException as e:  # noqa: BLE001
+        if isinstance(e, (KeyboardInterrupt, SystemExit)):
+            raise
+        return ("raised", type(e).__name__, str(e)[:200])
+
+
+def sched_case(case: dict) -> dict:
+    """Run the jobs serially, then as real threads along the given schedule; compare."""
+    from nix_manipulator import _verif_hooks as hooks
+    from harness.sched import Coop
+    jobs = [_job(j["kind"], j["text"]) for j in case["jobs"]]
+    hooks.install(None)
+    serial = [_safe(j) for j in jobs]
+    coop = Coop(len(jobs), case["sched"])
+    hooks.install(coop.sink)
+    try:
+        threaded = coop.run(jobs)
+    finally:
+        hooks.install(None)
+    return {"serial": serial, "threaded": threaded, "events": coop.events, "stuck": coop.stuck, "hooks_on": hooks.ENABLED}
+
+
+def free_threads_case(case: dict) -> dict:
+    """n threads each process their own documents without any scheduling; events are ordered by a lock-protected counter."""
+    import threading
+    from nix_manipulator import _verif_hooks as hooks
+    texts = case["texts"]
+    n = case["threads"]
+    hooks.install(None)
+    serial = [_safe(_job("roundtrip", t)) for t in texts]
+    lock = threading.Lock()
+    events: list[dict] = []
+    index: dict[int, int] = {}
+
+    def sink(ev, fields):
+        if ev in ("parser_get", "parser_done", "bytes_enter", "gap_read", "bytes_exit"):
+            me = index.get(threading.get_ident())
+            if me is None:
+                return
+            with lock:
+                events.append({"t": me, "ev": ev, "ident": fields.get("ident", fields.get("parser", 0))})
+    out: list = [None] * len(texts)
+
+    def body(i):
+        index[threading.get_ident()] = i
+        for k in range(i, len(texts), n):
+            out[k] = _safe(_job("roundtrip", texts[k]))
+    hooks.install(sink)
+    try:
+        ths = [threading.Thread(target=body, args=(i,)) for i in range(n)]
+        for t in ths:
+            t.start()
+        for t in ths:
+            t.join(timeout=120)
+    finally:
+        hooks.install(None)
+    # idents are object ids: reuse across time is possible once an object died; keep per-event identity only within
+    # enter..exit windows (the trace spec compares a read with the reader's own enclosing enter)
+    return {"same": out == serial, "events": events[:60000], "n_events": len(events),
+            "mismatch": next(({"i": i, "serial": s, "threaded": o} for i, (s, o) in enumerate(zip(serial, out)) if s != o), None)}
+
+
+def purity_case(text: str) -> dict:
+    from nix_manipulator.parser import parse
+    try:
+        with time_limit(20):
+            src = parse(text)
+            before = snapshot(src)
+            a = src.rebuild()
+            mid = snapshot(src)
+            b = src.rebuild()
+            after = snapshot(src)
+        return {"res": "ok", "same_text": a == b, "same_snap": before == mid == after}
+    except BaseException as e:  # noqa: BLE001
+        if isinstance(e, (KeyboardInterrupt, SystemExit)):
+            raise
+        return {"res": type(e).__name__, "same_text": True, "same_snap": True}
+
+
+def order_case(case: dict) -> dict:
+    """The same texts processed in two different orders in ONE process (plus some resolves / edits in between)."""
+    import hashlib
+    texts = case["texts"]
+    res = {}
+    for name, order in (("a", case["order_a"]), ("b", case["order_b"])):
+        outs = {}
+        for i in order:
+            outs[i] = _safe(_job(case["kinds"][i], texts[i]))
+        res[name] = outs
+    diff = [i for i in range(len(texts)) if res["a"].get(i) != res["b"].get(i)]
+    h = hashlib.sha256(json_dumps([res["a"].get(i) for i in range(len(texts))]).encode()).hexdigest()
+    return {"same": not diff, "first_diff": diff[:1], "digest": h,
+            "detail": {"text": texts[diff[0]], "a": res["a"][diff[0]], "b": res["b"][diff[0]]} if diff else None}
+
+
+def json_dumps(x):
+    import json
+    return json.dumps(x, default=str, ensure_ascii=False)
+
+
+# ---------------------------------------------------------------------------
+# C10 (registry half): create / resolve / discard histories with lifetime monitoring
+
+def registry_case(case: dict) -> dict:
+    import gc
+    import weakref
+    from nix_manipulator import _verif_hooks as hooks
+    from nix_manipulator.parser import parse
+    events: list[dict] = []
+    serials: dict[int, int] = {}       # id(obj) -> serial (our own identity-keyed table, cleaned by our own weakref callbacks)
+    keep: dict[int, object] = {}       # serial -> weakref (keeps the callback alive)
+    counter = {"n": 0}
+    ctxs: dict[int, int] = {}
+
+    def serial_of(obj) -> int:
+        oid = id(obj)
+        s = serials.get(oid)
+        if s is not None and keep.get(s) is not None and keep[s]() is obj:
+            return s
+        counter["n"] += 1
+        s = counter["n"]
+        serials[oid] = s
+
+        def died(_ref, s=s, oid=oid):
+            events.append({"ev": "death", "addr": 0, "serial": s, "ctx": 0})
+            if serials.get(oid) == s:
+                serials.pop(oid, None)
+        try:
+            keep[s] = weakref.ref(obj, died)
+        except TypeError:
+            keep[s] = None
+        return s
+
+    def sink(ev, f):
+        if ev == "ctx_store":
+            events.append({"ev": "store", "addr": 0, "serial": serial_of(f["obj"]), "ctx": ctxs.setdefault(f["ctx"], len(ctxs) + 1)})
+        elif ev == "ctx_hit":
+            events.append({"ev": "hit", "addr": 0, "serial": serial_of(f["obj"]), "ctx": ctxs.setdefault(f["ctx"], len(ctxs) + 1)})
+    docs: dict[int, object] = {}
+    results_ok = True
+    wrong = None
+    hooks.install(sink)
+    try:
+        for op, k in case["ops"]:
+            if op == "create":
+                docs[k] = parse(f"let v = {100 + k}; in {{ x = v; y = w; w = v; n = {{ z = v; }}; }}")
+            elif op == "resolve" and k in docs:
+                for path in (("x",), ("y",), ("n", "z")):
+                    try:
+                        cur = docs[k]
+                        for key in path:
+                            cur = cur[key]
+                        val = cur.value.rebuild().strip()
+                    except Exception as e:  # noqa: BLE001
+                        val = "raised:" + type(e).__name__
+                    if path != ("y",) and val != str(100 + k):
+                        results_ok = False
+                        wrong = {"doc": k, "path": path, "got": val}
+            elif op == "discard" and k in docs:
+                del docs[k]
+                gc.collect()
+    finally:
+        hooks.install(None)
+    return {"events": events[:20000], "results_ok": results_ok, "wrong": wrong, "n_events": len(events)}
